@@ -463,6 +463,93 @@ fn expr_iters(bytes: &[u8], encoding: gimli::Encoding, e: RunTimeEndian, out: &m
     );
 }
 
+/// A hand-assembled `.debug_line` program with several sequences (used for every case of the
+/// line family, so that the line iterators do not depend on `gimli::write`).
+fn line_seed(enc: Enc, r: &mut Rng) -> Vec<u8> {
+    let mut a = Asm::new(enc.le);
+    a.map = false;
+    let w = enc.fmt64;
+    let asz = enc.addr as usize;
+    let m = a.begin_length(w);
+    a.u16(enc.version);
+    if enc.version >= 5 {
+        a.u8(enc.addr).u8(0);
+    }
+    let hl = a.len();
+    a.word(w, 0);
+    let hstart = a.len();
+    a.u8(1);
+    if enc.version >= 4 {
+        a.u8(1);
+    }
+    a.u8(1).u8(0xfb).u8(14).u8(13);
+    for l in [0u8, 1, 1, 1, 1, 0, 0, 0, 1, 0, 0, 1] {
+        a.u8(l);
+    }
+    if enc.version >= 5 {
+        a.u8(1).uleb(1).uleb(0x08);
+        a.uleb(2).cstr(b"/d").cstr(b"inc");
+        a.u8(2).uleb(1).uleb(0x08).uleb(2).uleb(0x0f);
+        a.uleb(2).cstr(b"a.c").uleb(0).cstr(b"b.h").uleb(1);
+    } else {
+        a.cstr(b"inc").u8(0);
+        a.cstr(b"a.c").uleb(0).uleb(0).uleb(0);
+        a.cstr(b"b.h").uleb(1).uleb(0).uleb(0);
+        a.u8(0);
+    }
+    let hlen = (a.len() - hstart) as u64;
+    a.patch_uint(hl, if w { 8 } else { 4 }, hlen);
+    let nseq = 2 + r.usize(3);
+    let tomb = if r.chance(1, 3) { Some(r.usize(nseq)) } else { None };
+    for s in 0..nseq {
+        let base: u64 = if Some(s) == tomb { enc.addr_mask() } else { (0x10 + 0x20 * s as u64) & enc.addr_mask() };
+        a.u8(0).uleb(1 + asz as u64).u8(2).uint(asz, base);
+        let nops = 2 + r.usize(7);
+        for _ in 0..nops {
+            match r.below(12) {
+                0 => {
+                    a.u8(1);
+                }
+                1 => {
+                    a.u8(2).uleb(r.below(4));
+                }
+                2 => {
+                    a.u8(3).sleb(r.irange(-3, 9));
+                }
+                3 => {
+                    a.u8(4).uleb(1 + r.below(2));
+                }
+                4 => {
+                    a.u8(5).uleb(r.below(80));
+                }
+                5 => {
+                    a.u8(6);
+                }
+                6 => {
+                    a.u8(8);
+                }
+                7 => {
+                    a.u8(9).u16(r.below(3) as u16);
+                }
+                8 => {
+                    a.u8(0).uleb(2).u8(4).uleb(r.below(5));
+                }
+                9 if enc.version < 5 => {
+                    // DW_LNE_define_file
+                    a.u8(0).uleb(1 + 4 + 3).u8(3).cstr(b"c.c").uleb(0).uleb(0).uleb(0);
+                }
+                _ => {
+                    a.u8(13 + r.below(60) as u8);
+                }
+            }
+        }
+        a.u8(13 + r.below(30) as u8);
+        a.u8(0).uleb(1).u8(1);
+    }
+    a.end_length(m);
+    a.buf
+}
+
 // ---------------------------------------------------------------- driver
 
 fn maybe_mutate(s: &mut Secs, ids: &[SectionId], r: &mut Rng) -> String {
@@ -495,8 +582,16 @@ pub fn run(ctx: &mut Ctx) {
         let what;
         match fam {
             0 => {
-                let Some(s) = seeds::dwarf_seed(enc, &mut r) else { continue };
-                secs = s;
+                match if i % 2 == 0 { seeds::dwarf_seed(enc, &mut r) } else { None } {
+                    Some(s) => secs = s,
+                    None => {
+                        let mx = 4 + r.usize(20);
+                        let u = gen_unit(&mut r, enc, mx);
+                        secs.set(SectionId::DebugInfo, u.info);
+                        secs.set(SectionId::DebugAbbrev, u.abbrev);
+                        secs.set(SectionId::DebugLine, line_seed(enc, &mut r));
+                    }
+                }
                 what = maybe_mutate(&mut secs, &[SectionId::DebugInfo, SectionId::DebugAbbrev, SectionId::DebugLine], &mut r);
             }
             1 => {
